@@ -80,6 +80,12 @@ CHECKS["C13"] = (TV, "translation validation: symbolic execution (SSA->SMT, z3) 
     "compiled; drivers call the bystanders with symbolic arguments in both packages and the solver decides equality of the results for all 64-bit inputs. A generated file that "
     "does not type-check (the source does) is a front-end refutation. Shapes are hand-listed, not enumerated.", "§6 C13")
 
+CHECKS["C12"] = (TV, "compiler run concretely (reject / unbuildable are allowed outcomes), then translation validation by symbolic execution (SSA->SMT, z3) of accepted programs",
+    "Supported host programs with one unsupported construct injected at a random statement position (goto, labels, labelled break/continue, select, defer, fallthrough, range over "
+    "pointer-to-array / type parameter, yield in if/switch initialisers, go Yield, wrong result signatures) plus negative controls inside nested non-generator closures. The real "
+    "compiler decides first; only programs it accepts AND whose output type-checks reach the solver, which decides source-vs-generated log equality for all inputs (goto, labels, "
+    "fallthrough and defer are executed natively from the source SSA). A violation is exactly 'builds and behaves differently'. select / go are not executable by the engine: undecided.", "§6 C12")
+
 NA = {
     "C11": "compiler acceptance/buildability is decided by the compiler pipeline itself (go/packages, go/types, reflection-based AST rewriting, printer, file system); it cannot be encoded by an SSA->SMT translator and has no symbolic dimension once a program is fixed — enumeration of concrete compiler runs would be a different technique (DESIGN §7)",
     "C15": "byte-identical output across runs/configurations is a statement about repeated process runs, map iteration in the compiler and leftovers on disk; no symbolic inputs and the code is not encodable (DESIGN §7)",
